@@ -1,6 +1,7 @@
 package main
 
 import (
+	"fmt"
 	"go/token"
 	"go/types"
 	"sort"
@@ -658,6 +659,99 @@ func reachingStores(a *ssa.Alloc, path []string, load ssa.Instruction) (defs []r
 	}
 	walk(blk, idx-1)
 	return defs, entry
+}
+
+// reachingDefIDs: like reachingStores, but stores into a sub-field of the loaded path are
+// recorded as partial definitions and the walk continues past them. Two loads of the same
+// path of the same local with the same result read the same value. ok=false when the
+// local's address escapes or the path is not supported.
+func reachingDefIDs(a *ssa.Alloc, path []string, load ssa.Instruction) (ids []string, partial bool, ok bool) {
+	if len(path) > 0 && path[0] == "[]" {
+		return nil, false, false
+	}
+	if _, isArr := a.Type().Underlying().(*types.Pointer).Elem().Underlying().(*types.Array); isArr {
+		return nil, false, false
+	}
+	for _, ref := range *a.Referrers() {
+		if c, isC := ref.(ssa.CallInstruction); isC {
+			for _, arg := range c.Common().Args {
+				if arg == a {
+					return nil, false, false
+				}
+			}
+		}
+	}
+	chainOf := func(st *ssa.Store) ([]string, bool) {
+		var chain []string
+		cur := st.Addr
+		for {
+			fa, isFA := cur.(*ssa.FieldAddr)
+			if !isFA {
+				break
+			}
+			chain = append([]string{fieldName(fa.X.Type(), fa.Field)}, chain...)
+			cur = fa.X
+		}
+		return chain, cur == a
+	}
+	set := map[string]bool{}
+	seen := map[*ssa.BasicBlock]bool{}
+	var walk func(b *ssa.BasicBlock, from int)
+	walk = func(b *ssa.BasicBlock, from int) {
+		for i := from; i >= 0; i-- {
+			st, isSt := b.Instrs[i].(*ssa.Store)
+			if !isSt {
+				continue
+			}
+			chain, rooted := chainOf(st)
+			if !rooted {
+				continue
+			}
+			n := len(chain)
+			if n > len(path) {
+				n = len(path)
+			}
+			same := true
+			for j := 0; j < n; j++ {
+				if chain[j] != path[j] {
+					same = false
+				}
+			}
+			if !same {
+				continue
+			}
+			set[fmt.Sprintf("s%d.%d", b.Index, i)] = true
+			if len(chain) > len(path) {
+				partial = true
+				continue // overwrites only part of the loaded value
+			}
+			return
+		}
+		if len(b.Preds) == 0 {
+			set["entry"] = true
+			return
+		}
+		for _, pb := range b.Preds {
+			if seen[pb] {
+				continue
+			}
+			seen[pb] = true
+			walk(pb, len(pb.Instrs)-1)
+		}
+	}
+	blk := load.Block()
+	idx := -1
+	for i, in := range blk.Instrs {
+		if in == load {
+			idx = i
+		}
+	}
+	walk(blk, idx-1)
+	for k := range set {
+		ids = append(ids, k)
+	}
+	sort.Strings(ids)
+	return ids, partial, true
 }
 
 // calleeFullName names the function a call invokes: the static callee, or, for calls
